@@ -47,7 +47,8 @@ structure InputPost (P : Nat → I → List N → Option S) (s s' : St N I F V S
   unmet : s'.ideps.unmet = s.ideps.unmet
   queue : s'.queue = s.queue
   fdeps : s'.fdeps = s.fdeps
-  cases : (s'.refused = true ∧ s'.ideps.met = s.ideps.met ∧ s'.inp = s.inp) ∨
+  cases : (s'.refused = true ∧ s'.ideps.met = s.ideps.met ∧ s'.inp = s.inp ∧
+      ∃ k nb, P k x nb = none) ∨
     (s'.refused = s.refused ∧ s'.ideps.met = s.ideps.met ++ [x] ∧
       ∃ k nb str, P k x nb = some str ∧ s'.inp = assocSet s.inp x str ∧ s.inpf x = none)
 
@@ -147,7 +148,7 @@ theorem attemptInput_inv {P : Nat → I → List N → Option S} {L : List N} {s
       simp only [hP] at h
       cases h
       refine ⟨?_, storeLe_of_grow rfl rfl (fun _ h => h) (fun _ h => h), rfl, rfl, rfl, rfl,
-        Or.inl ⟨rfl, rfl, rfl⟩⟩
+        Or.inl ⟨rfl, rfl, rfl, s.nprompts, nb, hP⟩⟩
       exact hinv.frame rfl rfl rfl rfl rfl (fun _ h => h) (fun _ h => h) (fun _ h => h)
         hinv.part hinv.qDem hinv.solFmap hinv.fmapForm hinv.formsLoaded hinv.specsForm
     | some str =>
